@@ -80,7 +80,7 @@ def check(run):
             continue
         parts = o.split(" ")
         if len(parts) > 4:
-            oracle_fail.append((l[:300], "all destinations agree", o[-200:]))
+            oracle_fail.append((l[:300], "all destinations agree; same bytes whichever integer type stores a value", o[-200:]))
             continue
         out = bytes.fromhex(parts[0]) if parts[0] != "-" else b""
         if not (int(parts[1]) == int(parts[2]) == len(out)):
